@@ -95,11 +95,11 @@ pub fn run_mode(ctx: &mut Ctx, mode: Mode) -> Result<(), Violation> {
     let pid = if mode == Mode::C02 { "C02" } else { "C17" };
     ctx.level = "fault_enumeration";
     let lens: Vec<usize> = match ctx.tier {
-        Tier::Quick => vec![0, 1, 15, 16, 17, 63, 64, 65],
+        Tier::Quick => vec![0, 1, 2, 15, 16, 17, 31, 32, 33, 63, 64, 65, 127, 128, 129],
         Tier::Thorough => (0..=130).collect(),
     };
     let kinds = [Kind::SecretBox, Kind::Box, Kind::Precalc, Kind::Sealed, Kind::Stream];
-    let fills = ctx.tier.pick(2usize, 2);
+    let fills = ctx.tier.pick(2usize, 3);
     let mut items = vec![];
     for &k in &kinds {
         for &l in &lens {
@@ -163,7 +163,7 @@ pub fn run_mode(ctx: &mut Ctx, mode: Mode) -> Result<(), Violation> {
         "exhaustive_scope".into(),
         json!(format!(
             "for each enumerated (kind, message length in {:?}, {} fills): EVERY single-bit flip of tag/ciphertext/nonce/key/ephemeral key/header/AD, every truncation 1..=wire length, extensions {{1,2,15,16,17,64}} x {{zero,random}}; keys/nonces/messages themselves are seeded samples",
-            if ctx.tier == Tier::Quick { "0,1,15,16,17,63,64,65".to_string() } else { "0..=130".to_string() },
+            if ctx.tier == Tier::Quick { "0,1,2,15,16,17,31,32,33,63,64,65,127,128,129".to_string() } else { "0..=130".to_string() },
             fills
         )),
     );
